@@ -328,17 +328,35 @@ pub struct GenExprOpts {
     pub unknown_names: bool,
     /// Occasionally emit `PeerAS`, `<...>` and `community(...)` leaves.
     pub unevaluable: bool,
+    /// Emit `NOT`. See [`crate::db::GenOpts::max_prefix_len`] for why this is optional.
+    pub allow_not: bool,
+    /// Cap on the length of prefixes in literal sets.
+    pub max_prefix_len: Option<u8>,
+    /// Allow `^n-m` with `n <= 32 < m` on named sets / literal sets. RPSL-wise that selects the
+    /// /n../32 more-specifics of IPv4 members (and /n../m of IPv6 members); `rpsl` 0.1.1 fails to
+    /// build the length `m` for IPv4, and bgpfu then silently drops every IPv4 member.
+    pub cross_family_ranges: bool,
 }
 
 impl Default for GenExprOpts {
     fn default() -> Self {
-        GenExprOpts { depth: 3, unknown_names: false, unevaluable: false }
+        GenExprOpts { depth: 3, unknown_names: false, unevaluable: false, allow_not: true, max_prefix_len: None, cross_family_ranges: false }
     }
 }
 
-/// Generate an evaluable expression that references only names present in `db`.
+impl GenExprOpts {
+    /// Options under which the real evaluator can be expected to terminate: `NOT` is generated
+    /// only if no prefix in `db` is longer than /16 (literals are then capped at /16 as well).
+    pub fn safe_for(db: &Db, depth: u32) -> GenExprOpts {
+        let short = db_prefixes(db).iter().all(|p| p.len <= 16);
+        GenExprOpts { depth, allow_not: short, max_prefix_len: short.then_some(16), ..GenExprOpts::default() }
+    }
+}
+
+/// Generate an evaluable expression that references only names present in `db`, using
+/// [`GenExprOpts::safe_for`].
 pub fn generate_expr(rng_seed: u64, db: &Db, depth: u32) -> Expr {
-    generate_expr_with(rng_seed, db, &GenExprOpts { depth, ..GenExprOpts::default() })
+    generate_expr_with(rng_seed, db, &GenExprOpts::safe_for(db, depth))
 }
 
 pub fn generate_expr_with(rng_seed: u64, db: &Db, o: &GenExprOpts) -> Expr {
@@ -353,20 +371,23 @@ fn gen(r: &mut Rng, db: &Db, pool: &[Pfx], o: &GenExprOpts, depth: u32) -> Expr 
     }
     let a = Box::new(gen(r, db, pool, o, depth - 1));
     match r.below(10) {
-        0 | 1 => Expr::Not(a),
+        0 | 1 if o.allow_not => Expr::Not(a),
         2..=5 => Expr::And(a, Box::new(gen(r, db, pool, o, depth - 1))),
         _ => Expr::Or(a, Box::new(gen(r, db, pool, o, depth - 1))),
     }
 }
 
-fn gen_op(r: &mut Rng) -> Op {
+fn gen_op(r: &mut Rng, cross_family: bool) -> Op {
     const LENS: &[u8] = &[0, 8, 15, 16, 17, 19, 20, 22, 23, 24, 25, 26, 28, 31, 32, 33, 40, 47, 48, 49, 56, 64, 65, 127, 128];
     match r.below(8) {
         0 | 1 => Op::LessExcl,
         2 | 3 => Op::LessIncl,
         4 | 5 => Op::Exact(*r.pick(LENS)),
         _ => {
-            let (a, b) = (*r.pick(LENS), *r.pick(LENS));
+            let (a, mut b) = (*r.pick(LENS), *r.pick(LENS));
+            while !cross_family && (a <= 32) != (b <= 32) {
+                b = *r.pick(LENS);
+            }
             // mostly well-formed (n <= m), occasionally inverted
             if r.chance(9, 10) { Op::Range(a.min(b), a.max(b)) } else { Op::Range(a.max(b), a.min(b)) }
         }
@@ -403,18 +424,18 @@ fn gen_leaf(r: &mut Rng, db: &Db, pool: &[Pfx], o: &GenExprOpts) -> Expr {
         _ => {
             let min = if r.chance(1, 12) { 0 } else { 1 };
             let n = r.range(min, 4);
-            Expr::Literal((0..n).map(|_| gen_entry(r, pool)).collect())
+            Expr::Literal((0..n).map(|_| gen_entry(r, pool, o.max_prefix_len.unwrap_or(128))).collect())
         }
     };
     match leaf {
         Expr::Any | Expr::FilterSet(_) => leaf,
-        _ if r.chance(1, 3) => Expr::RangeOp(Box::new(leaf), gen_op(r)),
+        _ if r.chance(1, 3) => Expr::RangeOp(Box::new(leaf), gen_op(r, o.cross_family_ranges)),
         _ => leaf,
     }
 }
 
 /// A literal entry near a prefix that occurs in the database (same, covering, covered, random).
-fn gen_entry(r: &mut Rng, pool: &[Pfx]) -> LitEntry {
+fn gen_entry(r: &mut Rng, pool: &[Pfx], cap: u8) -> LitEntry {
     let base = if pool.is_empty() || r.chance(1, 8) {
         if r.chance(1, 2) { Pfx::v4(r.next_u64() as u32, r.range(0, 32) as u8) } else { Pfx::v6(r.next_u128(), r.range(0, 128) as u8) }
     } else {
@@ -429,7 +450,8 @@ fn gen_entry(r: &mut Rng, pool: &[Pfx]) -> LitEntry {
             Pfx::new(base.family, base.addr | (r.next_u128() & !mask(base.family, base.len)), len)
         }
         _ => Pfx::new(base.family, 0, 0),
-    };
+    }
+    .ancestor(cap);
     let op = match r.below(10) {
         0..=3 => Op::None,
         4 => Op::LessExcl,
@@ -884,7 +906,7 @@ mod tests {
     fn text_round_trip_and_ranges() {
         let db = crate::db::generate(7, crate::db::Size::Medium);
         for seed in 0..200 {
-            let e = generate_expr_with(seed, &db, &GenExprOpts { depth: 3, unknown_names: true, unevaluable: true });
+            let e = generate_expr_with(seed, &db, &GenExprOpts { depth: 3, unknown_names: true, unevaluable: true, cross_family_ranges: true, ..GenExprOpts::default() });
             let text = e.to_rpsl();
             let back = parse(&text).unwrap_or_else(|err| panic!("{text}: {err}"));
             assert_eq!(back.to_rpsl(), text);
